@@ -204,14 +204,15 @@ def oracle(case, ans, H):
         p, l = ann
         if not _ann_ok(H, n, seed, b1, p, l, +1 if kind == "one" else -1):
             return None
-        if H.covered("pp1", b1, b2, l) and p not in fs:
+        if H.covered("pp1", b1, b2, l) and p not in fs and rest != p:       # rest == p: p is the cofactor, separated
             return (f"P+1 (seed={seed}, B1={b1}, B2={b2}) must separate p = {p}: p {'+' if kind == 'one' else '-'} 1 = (stage-1 part) * {l} "
                     f"and {l} is covered by stage 2")
     elif kind == "two":
         p1, p2, l = ann
         if p1 not in fs:
             return f"the stage-1 factor {p1} (p1 + 1 divides the stage-1 exponent) is not returned"
-        if _ann_ok(H, n, seed, b1, p2, l, +1) and H.covered("pp1", b1, b2, l) and p2 not in fs:
+        # rest == p2: stage 1 found every other prime (complete split, `check_gcd_factors` returns at once), p2 is the cofactor
+        if _ann_ok(H, n, seed, b1, p2, l, +1) and H.covered("pp1", b1, b2, l) and p2 not in fs and rest != p2:
             return f"the stage-2 factor {p2} (missing prime {l} covered) is not returned although stage 1 found {p1}"
     elif kind == "blocks":
         p1, p2 = ann
